@@ -22,7 +22,7 @@ func checkC06(c *Ctx) {
 		"dominating tests prove nil on a branch guarded by another error being non-nil (the shape of the swallowed redeclaration error); (C06.const) every binding site Declare*Element in pkg/exec is classified by the syntax field its " +
 		"name flows from and uses the const/non-const variant the manual prescribes (恒为, 输入/parameters, 得到 both forms, 如何/定义 names, 此, imports const; 令/设为 and 遍历 slots assignable); (C06.globals) all three VM.Declare* test " +
 		"vm.globals before touching the scope, lookups consult globals first, nothing writes vm.globals; (C06.intact) Scope.SetValue stores only on the false edge of isConst, the innermost symbol with the name decides " +
-		"(no further search after a match), and declareValue appends only after the same-depth duplicate test. NOT decided: visibility for arbitrary nestings (Scope depth arithmetic at run time)."
+		"(no further search after a match), and declareValue appends only after the same-depth duplicate test. Also: every declaration path stores the isConst flag it was declared with (no recycled slot keeps an old flag); guards may live in helpers (summaries of helpers whose passing returns lie behind the test). NOT decided: visibility for arbitrary nestings (Scope depth arithmetic at run time)."
 	R.Assumptions = []string{"Scope.BeginScope/EndScope maintain currentDepth as a counter (pkg/runtime/scope.go, covered by baseline tests)"}
 	u := c.Core()
 	u.buildSSA()
@@ -400,6 +400,29 @@ func ruleRestC06(c *Ctx, u *Universe) {
 			}
 			ok = ok && found
 		}
+		// every declaration records its own constness: no path reaches the localCount increment without a store of
+		// the isConst parameter into the symbol (a recycled slot must not keep the previous symbol's flag)
+		var inc ssa.Instruction
+		for _, in := range instrsOf(f) {
+			if st, isSt := in.(*ssa.Store); isSt {
+				if fa, isFA := st.Addr.(*ssa.FieldAddr); isFA && fieldAddrName(fa) == "Scope.localCount" {
+					inc = in
+				}
+			}
+		}
+		okFlag := inc != nil && len(f.Params) >= 4
+		if okFlag {
+			setsFlag := func(x ssa.Instruction) bool {
+				st, isSt := x.(*ssa.Store)
+				if !isSt {
+					return false
+				}
+				fa, isFA := st.Addr.(*ssa.FieldAddr)
+				return isFA && fieldAddrName(fa) == "LocalSymbol.isConst" && st.Val == ssa.Value(f.Params[3])
+			}
+			okFlag = reachableAvoiding(f.Blocks[0], 0, func(x ssa.Instruction) bool { return x == inc }, setsFlag) == nil
+		}
+		R.check(okFlag, "C06.intact", "pkg/runtime.Scope.declareValue:constness-recorded", u.pos(f.Pos()), "each declared symbol stores the isConst flag it was declared with", "a symbol can be declared without recording its own isConst flag (it keeps the flag of whatever occupied the slot before): a constant becomes assignable or a variable frozen")
 		R.check(ok, "C06.intact", "pkg/runtime.Scope.declareValue:duplicate", u.pos(f.Pos()), "a second declaration at the same depth returns NameRedeclared without adding a symbol", "a name can be declared twice in the same block")
 	} else {
 		R.lost("C06.intact", "pkg/runtime.Scope.declareValue")
